@@ -7,7 +7,9 @@
 (* top/left) and b (the neighbour, as its bottom/right; "edge" where the   *)
 (* table has no neighbour), on the open document (oa, ob) and on the file  *)
 (* saved at that point and opened again (ra, rb).  v = "reopen": the       *)
-(* document object is replaced by one loaded from the last saved file.     *)
+(* document object is replaced by one loaded from the last saved file;     *)
+(* v = "touch-write" / "touch-merge": Table.write on the cells along the   *)
+(* line / Table.merge_cells elsewhere in the table.                        *)
 (* Only Level A is judged here (edge = last writer wins), so the trace may *)
 (* start from any line content (init).                                     *)
 (***************************************************************************)
@@ -22,7 +24,9 @@ Same(view, e) == \A i \in 1..N : view[i] = "edge" \/ view[i] = e[i]
 \* a recorded reopen: the document object is replaced by one loaded from the last saved file - nothing that Level A speaks of changes
 \* (the guards of Borders!Reopen are about the generator's bookkeeping, which a trace starting from a preloaded line does not have)
 TReopen == UNCHANGED <<edge, runs, openv, maxOrder>> /\ hist' = Append(hist, [o |-> 0, len |-> 0, v |-> "reopen"])
-Act == IF Evt.v = "reopen" THEN TReopen ELSE Stroke(Evt.o, Evt.len, Evt.v)
+\* a recorded touch (write to the cells along the line / merge_cells elsewhere): no border changes
+TTouch == UNCHANGED <<edge, runs, openv, maxOrder>> /\ hist' = Append(hist, [o |-> 0, len |-> 0, v |-> Evt.v])
+Act == IF Evt.v = "reopen" THEN TReopen ELSE IF Evt.v \in Touches THEN TTouch ELSE Stroke(Evt.o, Evt.len, Evt.v)
 Matches == Act /\ Same(Evt.oa, edge') /\ Same(Evt.ob, edge') /\ Same(Evt.ra, edge') /\ Same(Evt.rb, edge')
 Clause == IF ~ENABLED Act THEN "not-enabled"
           ELSE IF ~ENABLED (Act /\ Same(Evt.oa, edge')) THEN "open.own-side"
